@@ -296,8 +296,11 @@ pub fn replay(case: &Value) -> Vec<Violation> {
     let mut st = initial_state(&base, zod, seam);
     let Some(mut st0) = st.take() else { return vec![] };
     let mut out = vec![];
+    let alternating = case["alternating"].as_bool().unwrap_or(false);
     for (i, a) in history.iter().enumerate() {
-        let Some(o) = step(&base, &alphabet, &st0, a, seam, &refs) else { return out };
+        let level = i + 1;
+        let run_seam = if alternating && level % 2 == 1 { if seam == Seam::Cli { Seam::Build } else { Seam::Cli } } else { seam };
+        let Some(o) = step(&base, &alphabet, &st0, a, run_seam, &refs) else { return out };
         if o.exit_ok && !o.discrepancies.is_empty() && i + 1 == history.len() {
             out.push(make_violation(&base_name, seam, zod, &history[..=i], &o));
         }
@@ -328,7 +331,7 @@ pub fn run(tier: Tier) -> CheckResult {
     let mut res = CheckResult::new("C08", "model_checking");
     let deadline = tier_deadline(tier);
     let (bases, depth): (Vec<&str>, usize) = match tier {
-        Tier::Quick => (vec!["b0"], 2),
+        Tier::Quick => (vec!["b0", "b1"], 2),
         Tier::Thorough => (vec!["b0", "b1", "b2"], 3),
     };
     let refs: Mutex<HashMap<String, Option<BTreeMap<String, String>>>> = Mutex::new(HashMap::new());
@@ -355,9 +358,12 @@ pub fn run(tier: Tier) -> CheckResult {
             }
         }
         for zod in [false, true] {
-            for seam in [Seam::Cli, Seam::Build] {
+            // seam plans: all runs through the CLI, all through the build path, and (b0 only)
+            // alternating between the two, starting with either
+            let plans: Vec<(Seam, bool)> = if *base_name == "b0" { vec![(Seam::Cli, false), (Seam::Build, false), (Seam::Cli, true), (Seam::Build, true)] } else { vec![(Seam::Cli, false), (Seam::Build, false)] };
+            for (seam, alternating) in plans {
                 // the build path at depth 3 is run only for b0 to bound cost
-                let d = if seam == Seam::Build && tier == Tier::Thorough && *base_name != "b0" { 2 } else { depth };
+                let d = if (seam == Seam::Build || alternating) && tier == Tier::Thorough && *base_name != "b0" { 2 } else if alternating { 2 } else { depth };
                 let Some(s0) = initial_state(&base, zod, seam) else {
                     res.machinery_errors.push(format!("initial generation failed for {} {} {}", base_name, zod, seam.name()));
                     continue;
@@ -384,7 +390,10 @@ pub fn run(tier: Tier) -> CheckResult {
                             if deadline.passed() {
                                 return (i, a, None);
                             }
-                            let o = step(&base, &alphabet, &frontier[i], &a, seam, &refs);
+                            // the initial generation used `seam`; with an alternating plan run k uses
+                            // the other seam for odd k
+                            let run_seam = if alternating && level % 2 == 1 { if seam == Seam::Cli { Seam::Build } else { Seam::Cli } } else { seam };
+                            let o = step(&base, &alphabet, &frontier[i], &a, run_seam, &refs);
                             (i, a, o)
                         })
                         .collect();
@@ -408,11 +417,11 @@ pub fn run(tier: Tier) -> CheckResult {
                         if !o.discrepancies.is_empty() {
                             if level == 1 {
                                 bad_first_actions.insert(a.name());
-                                violations.push(make_violation(base_name, seam, zod, &st.history, &o));
+                                violations.push(make_violation(base_name, seam, zod, &st.history, &o).field("alternating", alternating.to_string()).with_replay_field("alternating", json!(alternating)));
                             } else if bad_first_actions.contains(&a.name()) {
                                 derived += 1;
                             } else {
-                                violations.push(make_violation(base_name, seam, zod, &st.history, &o));
+                                violations.push(make_violation(base_name, seam, zod, &st.history, &o).field("alternating", alternating.to_string()).with_replay_field("alternating", json!(alternating)));
                             }
                             continue; // bad states are not expanded
                         }
@@ -427,7 +436,7 @@ pub fn run(tier: Tier) -> CheckResult {
                     }
                     frontier = next_frontier;
                 }
-                completed.push(json!({"base":base_name,"zod":zod,"seam":seam.name(),"completed_depth":d,"edit_alphabet":alphabet.len(),"cfg_toggles":CFG_TOGGLES.len()}));
+                completed.push(json!({"base":base_name,"zod":zod,"seam":seam.name(),"alternating_seams":alternating,"completed_depth":d,"edit_alphabet":alphabet.len(),"cfg_toggles":CFG_TOGGLES.len()}));
             }
         }
     }
